@@ -127,9 +127,9 @@ def extra_obligations(index, tier):
     init = "".join(ast.unparse(index.func("codebasin:CodeBase.__init__").node).split())
     prop_ = "".join(ast.unparse(index.func("codebasin:CodeBase.exclude_patterns").node).split())
     out.append(("the exclude list is kept exactly as given (order matters: last matching pattern wins)",
-                "self._excludes=exclude_patterns" in init and "returnself._excludes" in prop_, "", "codebasin:CodeBase.__init__"))
+                "self._excludes=exclude_patterns" in init and "returnself._excludes" in prop_, "", "codebasin:CodeBase.__init__", "pattern"))
     out.append(("matcher/GitIgnoreSpec.from_lines(self.exclude_patterns)",
-                "pathspec.GitIgnoreSpec.from_lines(self.exclude_patterns)" in src, "", "codebasin:CodeBase.__contains__"))
+                "pathspec.GitIgnoreSpec.from_lines(self.exclude_patterns)" in src, "", "codebasin:CodeBase.__contains__", "pattern"))
     return out
 
 
